@@ -91,6 +91,10 @@ pub enum PK {
     FieldAddAssign,
     ArrAssign,
     ArrAddAssign,
+    /// element assignment whose index expression binds a name (`a[match .. { .some(i) -> i .. }] = 5`)
+    ArrAssignBindingIndex,
+    /// field assignment through an element whose index expression binds a name
+    FieldOfElemAssignBindingIndex,
     IdxAssign,
     IdxAddAssign,
     TaskRead,
@@ -109,7 +113,7 @@ pub enum PK {
     ReadBinding,
 }
 const PLAIN: [PK; 7] = [PK::Nop, PK::Break, PK::Continue, PK::Return, PK::ReturnE, PK::Try, PK::Unwrap];
-const VARPK: [PK; 20] = [
+const VARPK: [PK; 22] = [
     PK::ReadLocal,
     PK::Assign,
     PK::AddAssign,
@@ -117,6 +121,8 @@ const VARPK: [PK; 20] = [
     PK::FieldAddAssign,
     PK::ArrAssign,
     PK::ArrAddAssign,
+    PK::ArrAssignBindingIndex,
+    PK::FieldOfElemAssignBindingIndex,
     PK::IdxAssign,
     PK::IdxAddAssign,
     PK::TaskRead,
@@ -163,7 +169,8 @@ impl Payload {
             PK::ReadLocal | PK::TaskRead | PK::LambdaRead | PK::MatchScrut => format!("let v{j} = 10"),
             PK::Assign | PK::AddAssign => format!("var v{j} = 10"),
             PK::FieldAssign | PK::FieldAddAssign => format!("let s{j} = St(1)"),
-            PK::ArrAssign | PK::ArrAddAssign => format!("let a{j} = [1, 2]"),
+            PK::ArrAssign | PK::ArrAddAssign | PK::ArrAssignBindingIndex => format!("let a{j} = [1, 2]"),
+            PK::FieldOfElemAssignBindingIndex => format!("let a{j} = [St(1), St(2)]"),
             PK::IdxAssign | PK::IdxAddAssign => format!("let m{j} = Bx([1, 2])"),
             PK::Num(_) | PK::NumNeg => format!("let n{j} = Vv(2)"),
             PK::NumAddAssign => format!("var n{j} = Vv(2)"),
@@ -191,6 +198,8 @@ impl Payload {
             PK::FieldAddAssign => format!("s{j}.f += 5"),
             PK::ArrAssign => format!("a{j}[0] = 5"),
             PK::ArrAddAssign => format!("a{j}[0] += 5"),
+            PK::ArrAssignBindingIndex => format!("a{j}[match option.some(1) {{\n.some(ix) -> ix\n.none -> 0\n}}] = 5"),
+            PK::FieldOfElemAssignBindingIndex => format!("a{j}[match option.some(1) {{\n.some(ix) -> ix\n.none -> 0\n}}].f = 5"),
             PK::IdxAssign => format!("m{j}[0] = 5"),
             PK::IdxAddAssign => format!("m{j}[0] += 5"),
             PK::TaskRead => format!("task {{\nlet r = v{j} + 1\nnil\n}}"),
